@@ -18,7 +18,7 @@ def lazeEnv (st : Settings) : Env :=
 
 /-- `relroot(relpath)` -/
 def relroot (relpath : String) : String :=
-  let comps := (pathComponents relpath).filter (· ≠ ".")
+  let comps := (pathComponents relpath).filter (fun c => c ≠ "." && c ≠ "")
   if comps.length == 0 then "${root}" else "/".intercalate (comps.map (fun _ => ".."))
 
 def globalEnv (st : Settings) (b : Bag) (builder : Name) (app : Module) (r : Resolved) (cli : Cli) : Env :=
@@ -58,20 +58,34 @@ def applyExport (ev : EvalExpr) (flat : Flat) (e : VarExport) : Except GErr VarE
   let c ← unwrapX "shared.rs:apply_env" (expandEvalS ev flat .empty content)
   return { var := e.var, content := some c }
 
+/-- `apply_env` on an optional export list -/
+def applyExports (ev : EvalExpr) (flat : Flat) : Option (List VarExport) → Except GErr (Option (List VarExport))
+  | some l => (l.mapM (applyExport ev flat)).map some
+  | none => .ok none
+
+/-- the `VAR="value" && ` prefix one export contributes to a rule's command -/
+def exportPrefix (e : VarExport) : String :=
+  match e.content with
+  | some v => e.var ++ "=\"" ++ v ++ "\" && "
+  | none => ""
+
+def exportsPrefix (exports : Option (List VarExport)) : String := String.join ((exports.getD []).map exportPrefix)
+
+/-- the optional gcc depfile of a rule, expanded -/
+def ruleDeps (ev : EvalExpr) (flat : Flat) : Option String → Except GErr (Option String)
+  | some d => (liftX "rule-deps" (expandEvalS ev flat .ignore d)).map some
+  | none => .ok none
+
+def mkNinjaRule (rule : Rule) (pre cmd : String) (deps : Option String) : NinjaRule :=
+  ({ name := rule.name, command := pre ++ cmd, description := some (rule.description.getD rule.name),
+     deps := deps, rspfile := rule.rspfile, rspfileContent := rule.rspfileContent,
+     pool := rule.pool, always := rule.always } : NinjaRule).named
+
 def ruleToNinja (ev : EvalExpr) (rule : Rule) (flat : Flat) : Except GErr NinjaRule := do
-  let exports ← match rule.export with
-    | some l => (l.mapM (applyExport ev flat)).map some
-    | none => pure none
-  let pre := String.join ((exports.getD []).map (fun e => match e.content with
-    | some v => e.var ++ "=\"" ++ v ++ "\" && " | none => ""))
+  let exports ← applyExports ev flat rule.export
   let cmd ← liftX "rule-cmd" (expandEvalS ev flat .ignore rule.cmd)
-  let deps ← match rule.gccDeps with
-    | some d => (liftX "rule-deps" (expandEvalS ev flat .ignore d)).map some
-    | none => pure none
-  let r : NinjaRule := { name := rule.name, command := pre ++ cmd, description := some (rule.description.getD rule.name),
-                         deps := deps, rspfile := rule.rspfile, rspfileContent := rule.rspfileContent,
-                         pool := rule.pool, always := rule.always }
-  return r.named
+  let deps ← ruleDeps ev flat rule.gccDeps
+  return mkNinjaRule rule (exportsPrefix exports) cmd deps
 
 /-! ### build-order graph (`solvent::DepGraph`, deterministic feature) -/
 
@@ -108,17 +122,26 @@ def dependenciesOf (g : DepGraph) (target : Name) (size : Nat) : Nat → List Na
 def rootNode : Name := ""
 def globalNode : Name := "_global_build_deps"
 
+/-- `_global_build_deps → d` for every global build dep -/
+def graphAddGlobal (g : DepGraph) (d : Name) : DepGraph := g.add globalNode d
+
+/-- `module → d` for every build dep of the module, then `root → module` -/
+def graphAddModuleEdges (g : DepGraph) (mb : Module × Option (List Name)) : DepGraph :=
+  ((mb.2.getD []).foldl (fun g d => g.add mb.1.name d) g).add rootNode mb.1.name
+
+/-- the edges of one module; every non-global module depends on `_global_build_deps` -/
+def graphAddModule (g : DepGraph) (mb : Module × Option (List Name)) : DepGraph :=
+  if !mb.1.isGlobalBuildDep then (graphAddModuleEdges g mb).add mb.1.name globalNode else graphAddModuleEdges g mb
+
+def buildGraph (mods : List (Module × Option (List Name))) : DepGraph :=
+  mods.foldl graphAddModule (((mods.filter (·.1.isGlobalBuildDep)).map (·.1.name)).foldl graphAddGlobal {})
+
+def isRealNode (n : Name) : Bool := n != rootNode && n != globalNode
+
 /-- modules in build order, or `none` when there is a build-dependency cycle -/
 def buildOrder (mods : List (Module × Option (List Name))) : Option (List Name) :=
-  let globals := (mods.filter (·.1.isGlobalBuildDep)).map (·.1.name)
-  let g : DepGraph := globals.foldl (fun g d => g.add globalNode d) {}
-  let g := mods.foldl (fun g (m, bdeps) =>
-    let g := (bdeps.getD []).foldl (fun g d => g.add m.name d) g
-    let g := g.add rootNode m.name
-    if !m.isGlobalBuildDep then g.add m.name globalNode else g) g
-  let size := mods.length + 3
-  (dependenciesOf g rootNode size (size + 1) []).map
-    (fun order => order.filter (fun n => n != rootNode && n != globalNode))
+  (dependenciesOf (buildGraph mods) rootNode (mods.length + 3) (mods.length + 3 + 1) []).map
+    (fun order => order.filter isRealNode)
 
 /-! ### download statements (`download.rs`) -/
 
@@ -134,33 +157,65 @@ def Download.srcdir (d : Download) (buildDir : String) (relpath name : String) :
   | some dl => pathPush s dl
   | none => pathPush (pathPush s relpath) name
 
+/-- the ninja variables of a git download -/
+def downloadVars (d : Download) (commit : String) : List (String × String) := [("commit", commit), ("url", d.url)]
+
+def downloadBuild (nr : NinjaRule) (srcdir : String) (vars : List (String × String)) : NinjaBuild :=
+  { rule := nr.name, outs := [Download.tagfileDownload srcdir], env := some vars }
+
+def patchBuild (npr : NinjaRule) (m : Module) (srcdir : String) (patches : List String)
+    (vars : List (String × String)) : NinjaBuild :=
+  { rule := npr.name, inputs := some (patches.map (pathPush m.relpath ·)),
+    outs := [Download.tagfilePatched srcdir],
+    deps := some (pathSort [Download.tagfileDownload srcdir]), env := some vars }
+
+/-- `.unwrap()` on the patch rule's `to_ninja`: a reported error becomes a panic -/
+def remapPatchErr : GErr → GErr
+  | .error k => if k.startsWith "need:" then .error k else .panic ("download.rs:patch to_ninja:" ++ k)
+  | e => e
+
+def patchRuleToNinja (ev : EvalExpr) (pr : Rule) (flat : Flat) : Except GErr NinjaRule :=
+  match ruleToNinja ev pr flat with
+  | .ok r => .ok r
+  | .error e => .error (remapPatchErr e)
+
+/-- the GIT_PATCH rule and the patch build statement -/
+def patchEntries (ev : EvalExpr) (m : Module) (rules : List (String × Rule)) (flat : Flat)
+    (srcdir : String) (vars : List (String × String)) (patches : List String) : Except GErr (List String) :=
+  match rulesByName rules "GIT_PATCH" with
+  | none => .error (.panic "download.rs:missing GIT_PATCH rule")
+  | some pr =>
+    match patchRuleToNinja ev pr flat with
+    | .error e => .error e
+    | .ok npr => .ok [npr.render, (patchBuild npr m srcdir patches vars).render]
+
+/-- the optional patch statements after the download statements -/
+def withPatchEntries (ev : EvalExpr) (m : Module) (rules : List (String × Rule)) (flat : Flat)
+    (srcdir : String) (vars : List (String × String)) (base : List String) :
+    Option (List String) → Except GErr (List String)
+  | none => .ok base
+  | some patches =>
+    match patchEntries ev m rules flat srcdir vars patches with
+    | .error e => .error e
+    | .ok pe => .ok (base ++ pe)
+
+/-- statements of a git download with a commit -/
+def gitDownloadEntries (ev : EvalExpr) (m : Module) (d : Download) (rules : List (String × Rule)) (flat : Flat)
+    (commit : String) : Except GErr (List String) :=
+  match rulesByName rules "GIT_DOWNLOAD" with
+  | none => .error (.panic "download.rs:missing GIT_DOWNLOAD rule")
+  | some dr =>
+    match ruleToNinja ev dr flat with
+    | .error e => .error e
+    | .ok nr =>
+      withPatchEntries ev m rules flat (m.srcdir.getD "") (downloadVars d commit)
+        [nr.render, (downloadBuild nr (m.srcdir.getD "") (downloadVars d commit)).render] d.patches
+
 def downloadEntries (ev : EvalExpr) (m : Module) (d : Download) (rules : List (String × Rule)) (flat : Flat) :
-    Except GErr (List String) := do
+    Except GErr (List String) :=
   match d.commit with
-  | none => throw (.error "unsupported download type")
-  | some commit =>
-    let env := [("commit", commit), ("url", d.url)]
-    match rulesByName rules "GIT_DOWNLOAD" with
-    | none => throw (.panic "download.rs:missing GIT_DOWNLOAD rule")
-    | some dr =>
-      let nr ← ruleToNinja ev dr flat
-      let srcdir := m.srcdir.getD ""
-      let dl : NinjaBuild := { rule := nr.name, outs := [Download.tagfileDownload srcdir], env := some env }
-      let base := [nr.render, dl.render]
-      match d.patches with
-      | none => return base
-      | some patches =>
-        match rulesByName rules "GIT_PATCH" with
-        | none => throw (.panic "download.rs:missing GIT_PATCH rule")
-        | some pr =>
-          let npr ← match ruleToNinja ev pr flat with
-            | .ok r => pure r
-            | .error (.error k) => throw (if k.startsWith "need:" then .error k else .panic ("download.rs:patch to_ninja:" ++ k))
-            | .error e => throw e
-          let pb : NinjaBuild := { rule := npr.name, inputs := some (patches.map (pathPush m.relpath ·)),
-                                   outs := [Download.tagfilePatched srcdir],
-                                   deps := some (pathSort [Download.tagfileDownload srcdir]), env := some env }
-          return base ++ [npr.render, pb.render]
+  | none => .error (.error "unsupported download type")
+  | some commit => gitDownloadEntries ev m d rules flat commit
 
 /-! ### tasks (`Context::collect_tasks`, `Task::with_env_eval`) -/
 
@@ -170,14 +225,17 @@ inductive TaskAvail where
   | missingModule (m : String)
   deriving Repr
 
+def taskCmd (ev : EvalExpr) (flat : Flat) (c : String) : Except GErr String :=
+  liftX "task-cmd" (expandEvalS ev flat .empty c)
+
+def taskWorkdir (ev : EvalExpr) (flat : Flat) : Option String → Except GErr (Option String)
+  | some w => (liftX "task-workdir" (expandEvalS ev flat .empty w)).map some
+  | none => .ok none
+
 def taskWithEnvEval (ev : EvalExpr) (flat : Flat) (t : Task) : Except GErr Task := do
-  let cmd ← t.cmd.mapM (fun c => liftX "task-cmd" (expandEvalS ev flat .empty c))
-  let exp ← match t.export with
-    | some l => (l.mapM (applyExport ev flat)).map some
-    | none => pure none
-  let wd ← match t.workdir with
-    | some w => (liftX "task-workdir" (expandEvalS ev flat .empty w)).map some
-    | none => pure none
+  let cmd ← t.cmd.mapM (taskCmd ev flat)
+  let exp ← applyExports ev flat t.export
+  let wd ← taskWorkdir ev flat t.workdir
   return { t with cmd := cmd, «export» := exp, workdir := wd }
 
 def taskAvail (ev : EvalExpr) (flat : Flat) (r : Resolved) (t : Task) : Except GErr TaskAvail :=
@@ -188,18 +246,39 @@ def taskAvail (ev : EvalExpr) (flat : Flat) (r : Resolved) (t : Task) : Except G
     | some m => .ok (.missingModule m)
     | none => (taskWithEnvEval ev flat t).map TaskAvail.ok
 
+/-- `IndexMap::insert` of every task of a list, evaluated in order (a later definition replaces,
+    position kept) -/
+def insertTasks (ev : EvalExpr) (flat : Flat) (r : Resolved) :
+    List (String × Task) → List (String × TaskAvail) → Except GErr (List (String × TaskAvail))
+  | [], res => .ok res
+  | (name, t) :: ts, res =>
+    match taskAvail ev flat r t with
+    | .error e => .error e
+    | .ok a => insertTasks ev flat r ts (insertKeyed res name a)
+
+/-- the tasks of every selected module, in selection order -/
+def moduleTasks (r : Resolved) : List (String × Task) := r.modules.flatMap (·.tasks)
+
+/-- what one context contributes: its own tasks, then every selected module's tasks -/
+def contextTaskList (r : Resolved) (c : Context) : List (String × Task) := c.tasks.getD [] ++ moduleTasks r
+
+def contextTasksStep (ev : EvalExpr) (flat : Flat) (r : Resolved) (c : Context)
+    (res : List (String × TaskAvail)) : Except GErr (List (String × TaskAvail)) :=
+  insertTasks ev flat r (contextTaskList r c) res
+
+def contextsTasksLoop (ev : EvalExpr) (flat : Flat) (r : Resolved) :
+    List Context → List (String × TaskAvail) → Except GErr (List (String × TaskAvail))
+  | [], res => .ok res
+  | c :: cs, res =>
+    match contextTasksStep ev flat r c res with
+    | .error e => .error e
+    | .ok res' => contextsTasksLoop ev flat r cs res'
+
 /-- the final task table: contexts root → builder, then (after each context) every selected
     module's tasks; `IndexMap::insert` semantics (a later definition replaces, position kept) -/
 def collectTasks (ev : EvalExpr) (b : Bag) (builder : Name) (flat : Flat) (r : Resolved) :
-    Except GErr (List (String × TaskAvail)) := do
-  let mut res : List (String × TaskAvail) := []
-  for c in (b.chainCtx builder).reverse do
-    for (name, t) in c.tasks.getD [] do
-      res := insertKeyed res name (← taskAvail ev flat r t)
-    for m in r.modules do
-      for (name, t) in m.tasks do
-        res := insertKeyed res name (← taskAvail ev flat r t)
-  return res
+    Except GErr (List (String × TaskAvail)) :=
+  contextsTasksLoop ev flat r (b.chainCtx builder).reverse []
 
 /-! ### `configure_build` -/
 
@@ -243,158 +322,399 @@ structure LoopState where
   files : FileTable := []
   downloadDirs : List (String × String) := []
 
+/-! #### per-module inputs -/
+
+/-- the sources an optional-sources entry contributes: all of them when its guard is selected -/
+def optionalSourcesOf (r : Resolved) (kv : Name × List String) : List String := if r.has kv.1 then kv.2 else []
+
+/-- the module's sources followed by the optional sources whose guard is selected (map order) -/
+def effSources (r : Resolved) (m : Module) : List String :=
+  m.sources ++ (m.sourcesOptional.getD []).flatMap (optionalSourcesOf r)
+
+/-- build deps: global ones first (for non-global modules), then the imported ones -/
+def effBuildDeps (globals : List Name) (m : Module) (bdeps : Option (List Name)) : Option (List Name) :=
+  if !globals.isEmpty && !m.isGlobalBuildDep then some (dedup (globals ++ bdeps.getD [])) else bdeps
+
+/-- the files exported by the given build deps (insertion-ordered set); a dep without an entry in
+    the table is a panic -/
+def importedDepFiles (files : FileTable) : List Name → List String → Except GErr (List String)
+  | [], acc => .ok acc
+  | d :: ds, acc =>
+    match files.get? d with
+    | some fs => importedDepFiles files ds (dedup (acc ++ fs))
+    | none => .error (.panic "generate.rs:imported build deps: no files for build dep")
+
+def importedOf (files : FileTable) : Option (List Name) → Except GErr (Option (List String))
+  | none => .ok none
+  | some l => (importedDepFiles files l []).map some
+
+/-- imported build-dep files followed by the module's own; `none` when there are neither -/
+def combinedDeps (imported localDeps : Option (List String)) : Option (List String) :=
+  if imported.isSome || localDeps.isSome then some (imported.getD [] ++ localDeps.getD []) else none
+
+def depsHashOf (combined : Option (List String)) : Option String := combined.map (hashPaths "deps")
+
+/-- a module's own build-dep files are registered under its name -/
+def registerLocalDeps (m : Module) (ls : LoopState) : LoopState :=
+  match m.buildDepFiles with
+  | some l => { ls with files := ls.files.extend m.name l }
+  | none => ls
+
+def moduleFlat (opts : Option VarOpts) (menv : Env) : Except GErr Flat :=
+  match menv.flattenWithOptsOption opts with
+  | .ok f => .ok f
+  | .error _ => .error (.error "module env: var_options")
+
+/-! #### downloads -/
+
+/-- a downloading module emits its download statements and registers its source directory; any other
+    module finds out whether its (expanded) source directory lies inside a downloaded one.
+    Result: the new state and the tag file the module's sources depend on -/
+def downloadStep (ev : EvalExpr) (m : Module) (srcdir : String) (rules : List (String × Rule)) (flat : Flat)
+    (ls : LoopState) : Except GErr (LoopState × Option String) :=
+  match m.download with
+  | some d =>
+    match downloadEntries ev m d rules flat with
+    | .error e => .error e
+    | .ok es =>
+      .ok ({ ls with entries := addEntries ls.entries es,
+                     downloadDirs := insertKeyed ls.downloadDirs srcdir (d.tagfile srcdir) }, none)
+  | none =>
+    match unwrapX "generate.rs:srcdir" (expandEvalS ev flat .ignore srcdir) with
+    | .error e => .error e
+    | .ok sd => .ok (ls, containingPath ls.downloadDirs sd)
+
+/-! #### custom build -/
+
+def customSource (ev : EvalExpr) (flat : Flat) (srcdir : String) (s : String) : Except GErr String :=
+  unwrapX "generate.rs:custom build source" (expandEvalS ev flat .empty (pathPush srcdir s))
+
+def customOut (ev : EvalExpr) (flat : Flat) (o : String) : Except GErr String :=
+  unwrapX "generate.rs:custom build out" (expandEvalS ev flat .empty o)
+
+def customRule (cb : CustomBuild) (cmd : String) : NinjaRule :=
+  ({ name := "BUILD", command := cmd, description := some "BUILD ${out}", deps := cb.gccDeps } : NinjaRule).named
+
+def outsAlias (outs : List String) : String := "outs_" ++ hashPaths "outs" outs
+
+/-- the statements of a custom build: rule, build, alias for the outputs -/
+def customStmts (cb : CustomBuild) (cmd : String) (srcs outs : List String) (combined : Option (List String)) :
+    List String :=
+  [(customRule cb cmd).render,
+   (buildFromRule (customRule cb cmd) (some srcs) (pathSort outs) combined).render,
+   ninjaAliasMultiple outs (outsAlias outs)]
+
+/-- a module with a `build:` section -/
+def customBuildStep (ev : EvalExpr) (flat : Flat) (m : Module) (srcdir : String) (sources : List String)
+    (combined : Option (List String)) (cb : CustomBuild) (ls : LoopState) : Except GErr LoopState := do
+  let cmd ← unwrapX "generate.rs:custom build cmd" (expandEvalS ev flat .empty (" && ".intercalate cb.cmd))
+  let srcs ← sources.mapM (customSource ev flat srcdir)
+  let outs ← (cb.out.getD []).mapM (customOut ev flat)
+  return { ls with files := ls.files.extend m.name [outsAlias outs],
+                   entries := addEntries ls.entries (customStmts cb cmd srcs outs combined) }
+
+/-! #### default build: per-extension rules, then one compile statement per source -/
+
+/-- the rule for a source, by its extension (taken *before* substitution), converted for this module -/
+def ruleForSource (ev : EvalExpr) (rules : List (String × Rule)) (flat : Flat) (s : String) :
+    Except GErr (String × NinjaRule) :=
+  match pathExtension s with
+  | none => .error (.error "source file missing extension")
+  | some ext =>
+    match rulesGet rules ext with
+    | none => .error (.error "no rule found")
+    | some rule =>
+      match ruleToNinja ev rule flat with
+      | .error e => .error e
+      | .ok nr => .ok (ext, nr)
+
+/-- `entry(ext).or_insert(nr)` -/
+def addModuleRule (mrules : List (String × NinjaRule)) (ext : String) (nr : NinjaRule) : List (String × NinjaRule) :=
+  if mrules.any (·.1 == ext) then mrules else mrules ++ [(ext, nr)]
+
+/-- first loop over the sources: `to_ninja` is evaluated and the rule rendered for EVERY source
+    (`entry(ext).or_insert({...})` evaluates its argument), the table keeps the first per extension -/
+def moduleRulesLoop (ev : EvalExpr) (rules : List (String × Rule)) (flat : Flat) :
+    List String → List String → List (String × NinjaRule) → Except GErr (List String × List (String × NinjaRule))
+  | [], entries, mrules => .ok (entries, mrules)
+  | s :: ss, entries, mrules =>
+    match ruleForSource ev rules flat s with
+    | .error e => .error e
+    | .ok en => moduleRulesLoop ev rules flat ss (addEntry entries en.2.render) (addModuleRule mrules en.1 en.2)
+
+def objectExt (rule : Rule) (nr : NinjaRule) (depsHash : Option String) (out : String) : String :=
+  if rule.shareable then hashXor nr.hash depsHash ++ "." ++ out else out
+
+def objectDir (st : Settings) (builder appName : Name) (rule : Rule) : String :=
+  if rule.shareable then pathPush st.buildDir "objects"
+  else pathPush (pathPush (pathPush st.buildDir "objects") builder) appName
+
+/-- where the object of `srcpath` goes: shareable rules share objects between apps and builders (the
+    name then carries the rule and build-deps hash) -/
+def objectPath (st : Settings) (builder : Name) (appName : Name) (rule : Rule) (nr : NinjaRule)
+    (depsHash : Option String) (out : String) (srcpath : String) : String :=
+  pathPush (objectDir st builder appName rule) (pathWithExtension srcpath (objectExt rule nr depsHash out))
+
+/-- the extra statement of a source: a phony statement making it depend on the module's own build-dep
+    files, or else an alias to the tag file of the download it lives in -/
+def sourceDepStmts (localDeps : Option (List String)) (srcTagfile : Option String) (srcpath : String) : List String :=
+  match localDeps with
+  | some l => [({ rule := "phony", outs := [srcpath], deps := some (pathSort l) } : NinjaBuild).render]
+  | none =>
+    match srcTagfile with
+    | some tag => [ninjaAlias tag srcpath]
+    | none => []
+
+/-- the rule of an (expanded) source path: the global rule table and the module's converted rules -/
+def lookupCompileRule (rules : List (String × Rule)) (mrules : List (String × NinjaRule)) (ext : String) :
+    Option (Rule × NinjaRule) :=
+  match rulesGet rules ext with
+  | none => none
+  | some rule =>
+    match (mrules.find? (·.1 == ext)).map (·.2) with
+    | none => none
+    | some nr => some (rule, nr)
+
+def expandSrcPath (ev : EvalExpr) (flat : Flat) (srcdir : String) (s : String) : Except GErr String :=
+  unwrapX "generate.rs:srcpath" (expandEvalS ev flat .empty (pathPush srcdir s))
+
+/-- the result for one source, its object path known: the compile statement, then the extra statement -/
+def compileOut (nr : NinjaRule) (combined : Option (List String)) (localDeps : Option (List String))
+    (srcTagfile : Option String) (srcpath object : String) : String × List String :=
+  (object, (buildFromRule nr (some [srcpath]) [object] combined).render :: sourceDepStmts localDeps srcTagfile srcpath)
+
+/-- (object, statements) of an expanded source path -/
+def compileStmts (st : Settings) (builder appName : Name) (rules : List (String × Rule))
+    (mrules : List (String × NinjaRule)) (combined : Option (List String)) (localDeps : Option (List String))
+    (srcTagfile : Option String) (srcpath : String) : Except GErr (String × List String) :=
+  match pathExtension srcpath with
+  | none => .error (.panic "generate.rs:srcpath extension")
+  | some ext =>
+    match lookupCompileRule rules mrules ext with
+    | none => .error (.panic "generate.rs:rule lookup after expansion")
+    | some rn =>
+      match rn.1.out with
+      | none => .error (.panic "generate.rs:rule.out")
+      | some out =>
+        .ok (compileOut rn.2 combined localDeps srcTagfile srcpath
+              (objectPath st builder appName rn.1 rn.2 (depsHashOf combined) out srcpath))
+
+/-- one source: its object and the statements it contributes (the compile statement, then the phony
+    statement for local build deps or the tag-file alias) -/
+def compileSource (ev : EvalExpr) (st : Settings) (builder appName : Name) (rules : List (String × Rule))
+    (mrules : List (String × NinjaRule)) (flat : Flat) (srcdir : String) (combined : Option (List String))
+    (localDeps : Option (List String)) (srcTagfile : Option String) (s : String) :
+    Except GErr (String × List String) :=
+  match expandSrcPath ev flat srcdir s with
+  | .error e => .error e
+  | .ok srcpath => compileStmts st builder appName rules mrules combined localDeps srcTagfile srcpath
+
+/-- second loop over the sources: (entries, objects) -/
+def compileSourcesLoop (ev : EvalExpr) (st : Settings) (builder appName : Name) (rules : List (String × Rule))
+    (mrules : List (String × NinjaRule)) (flat : Flat) (srcdir : String) (combined : Option (List String))
+    (localDeps : Option (List String)) (srcTagfile : Option String) :
+    List String → List String → List String → Except GErr (List String × List String)
+  | [], entries, objects => .ok (entries, objects)
+  | s :: ss, entries, objects =>
+    match compileSource ev st builder appName rules mrules flat srcdir combined localDeps srcTagfile s with
+    | .error e => .error e
+    | .ok os =>
+      compileSourcesLoop ev st builder appName rules mrules flat srcdir combined localDeps srcTagfile ss
+        (addEntries entries os.2) (objects ++ [os.1])
+
+/-- a module without a `build:` section -/
+def defaultBuildStep (ev : EvalExpr) (st : Settings) (builder appName : Name) (rules : List (String × Rule))
+    (flat : Flat) (srcdir : String) (sources : List String) (combined : Option (List String))
+    (localDeps : Option (List String)) (srcTagfile : Option String) (ls : LoopState) : Except GErr LoopState :=
+  match moduleRulesLoop ev rules flat sources ls.entries [] with
+  | .error e => .error e
+  | .ok em =>
+    match compileSourcesLoop ev st builder appName rules em.2 flat srcdir combined localDeps srcTagfile
+            sources em.1 ls.objects with
+    | .error e => .error e
+    | .ok eo => .ok { ls with entries := eo.1, objects := eo.2 }
+
+def buildStep (ev : EvalExpr) (st : Settings) (builder appName : Name) (rules : List (String × Rule))
+    (flat : Flat) (m : Module) (srcdir : String) (sources : List String) (combined : Option (List String))
+    (srcTagfile : Option String) (ls : LoopState) : Except GErr LoopState :=
+  match m.build with
+  | some cb => customBuildStep ev flat m srcdir sources combined cb ls
+  | none => defaultBuildStep ev st builder appName rules flat srcdir sources combined m.buildDepFiles srcTagfile ls
+
+/-! #### the module loop -/
+
+/-- a module with a source directory, its flattened env known: downloads, build deps, statements -/
+def moduleStmts (ev : EvalExpr) (st : Settings) (builder : Name) (app : Module) (r : Resolved)
+    (rules : List (String × Rule)) (globals : List Name) (m : Module) (bdeps : Option (List Name))
+    (srcdir : String) (flat : Flat) (ls : LoopState) : Except GErr LoopState :=
+  match downloadStep ev m srcdir rules flat ls with
+  | .error e => .error e
+  | .ok lt =>
+    -- the imported files are looked up BEFORE the module's own files are registered
+    match importedOf lt.1.files (effBuildDeps globals m bdeps) with
+    | .error e => .error e
+    | .ok imported =>
+      buildStep ev st builder app.name rules flat m srcdir (effSources r m)
+        (combinedDeps imported m.buildDepFiles) lt.2 (registerLocalDeps m lt.1)
+
 /-- the body of `for (module, module_env, module_build_deps) in modules_in_build_order` -/
 def moduleStep (ev : EvalExpr) (st : Settings) (builder : Name) (app : Module) (r : Resolved)
     (rules : List (String × Rule)) (opts : Option VarOpts) (globals : List Name)
     (m : Module) (menv : Env) (bdeps : Option (List Name)) (ls : LoopState) :
-    Except GErr (LoopState × Option (Name × Flat)) := do
+    Except GErr (LoopState × Option (Name × Flat)) :=
   match m.srcdir with
-  | none => return (ls, none)                          -- a context module
+  | none => .ok (ls, none)                          -- a context module
   | some srcdir =>
-  let flat ← match menv.flattenWithOptsOption opts with
-    | .ok f => pure f
-    | .error _ => throw (.error "module env: var_options")
-  let mut ls := ls
-  -- downloads
-  let mut srcTagfile : Option String := none
-  match m.download with
-  | some d =>
-    ls := { ls with entries := addEntries ls.entries (← downloadEntries ev m d rules flat) }
-    ls := { ls with downloadDirs := insertKeyed ls.downloadDirs srcdir (d.tagfile srcdir) }
-  | none =>
-    let sd ← unwrapX "generate.rs:srcdir" (expandEvalS ev flat .ignore srcdir)
-    srcTagfile := containingPath ls.downloadDirs sd
-  -- optional sources whose guard is selected
-  let optional := (m.sourcesOptional.getD []).flatMap (fun (k, v) => if r.has k then v else [])
-  let sources := m.sources ++ optional
-  -- build deps: global ones first (for non-global modules), then the imported ones
-  let haveGlobal := !globals.isEmpty
-  let bdeps' : Option (List Name) :=
-    if haveGlobal && !m.isGlobalBuildDep then some (dedup (globals ++ bdeps.getD [])) else bdeps
-  let imported : Option (List String) ← match bdeps' with
-    | none => pure none
-    | some l =>
-      let mut acc : List String := []
-      for d in l do
-        match ls.files.get? d with
-        | some fs => acc := dedup (acc ++ fs)
-        | none => throw (.panic "generate.rs:imported build deps: no files for build dep")
-      pure (some acc)
-  let localDeps := m.buildDepFiles
-  match localDeps with
-  | some l => ls := { ls with files := ls.files.extend m.name l }
-  | none => pure ()
-  let combined : Option (List String) :=
-    if imported.isSome || localDeps.isSome then some (imported.getD [] ++ localDeps.getD []) else none
-  let depsHash := combined.map (hashPaths "deps")
-  match m.build with
-  | some cb =>
-    let cmd ← unwrapX "generate.rs:custom build cmd" (expandEvalS ev flat .empty (" && ".intercalate cb.cmd))
-    let rule : NinjaRule := ({ name := "BUILD", command := cmd, description := some "BUILD ${out}", deps := cb.gccDeps } : NinjaRule).named
-    let srcs ← sources.mapM (fun s => unwrapX "generate.rs:custom build source" (expandEvalS ev flat .empty (pathPush srcdir s)))
-    let outs ← (cb.out.getD []).mapM (fun o => unwrapX "generate.rs:custom build out" (expandEvalS ev flat .empty o))
-    let outsHash := hashPaths "outs" outs
-    let alias := "outs_" ++ outsHash
-    let bld := buildFromRule rule (some srcs) (pathSort outs) combined
-    ls := { ls with files := ls.files.extend m.name [alias] }
-    ls := { ls with entries := addEntries ls.entries [rule.render, bld.render, ninjaAliasMultiple outs alias] }
-  | none =>
-    -- per-extension rules, in order of first use (extension taken *before* substitution)
-    let mut mrules : List (String × NinjaRule) := []
-    for s in sources do
-      match pathExtension s with
-      | none => throw (.error "source file missing extension")
-      | some ext =>
-        match rulesGet rules ext with
-        | none => throw (.error "no rule found")
-        | some rule =>
-          -- `entry(ext).or_insert({...})`: the argument is evaluated even when the entry exists
-          let nr ← ruleToNinja ev rule flat
-          ls := { ls with entries := addEntry ls.entries nr.render }
-          if !(mrules.any (·.1 == ext)) then mrules := mrules ++ [(ext, nr)]
-    for s in sources do
-      let srcpath ← unwrapX "generate.rs:srcpath" (expandEvalS ev flat .empty (pathPush srcdir s))
-      match pathExtension srcpath with
-      | none => throw (.panic "generate.rs:srcpath extension")
-      | some ext =>
-        match rulesGet rules ext, (mrules.find? (·.1 == ext)).map (·.2) with
-        | some rule, some nr =>
-          match rule.out with
-          | none => throw (.panic "generate.rs:rule.out")
-          | some out =>
-            let outExt := if rule.shareable then hashXor nr.hash depsHash ++ "." ++ out else out
-            let objdir := pathPush st.buildDir "objects"
-            let objdir := if rule.shareable then objdir else pathPush (pathPush objdir builder) app.name
-            let object := pathPush objdir (pathWithExtension srcpath outExt)
-            let bld := buildFromRule nr (some [srcpath]) [object] combined
-            ls := { ls with entries := addEntry ls.entries bld.render, objects := ls.objects ++ [object] }
-            match localDeps with
-            | some l =>
-              let ph : NinjaBuild := { rule := "phony", outs := [srcpath], deps := some (pathSort l) }
-              ls := { ls with entries := addEntry ls.entries ph.render }
-            | none =>
-              match srcTagfile with
-              | some tag => ls := { ls with entries := addEntry ls.entries (ninjaAlias tag srcpath) }
-              | none => pure ()
-        | _, _ => throw (.panic "generate.rs:rule lookup after expansion")
-  return (ls, some (m.name, flat))
+    match moduleFlat opts menv with
+    | .error e => .error e
+    | .ok flat =>
+      match moduleStmts ev st builder app r rules globals m bdeps srcdir flat ls with
+      | .error e => .error e
+      | .ok ls' => .ok (ls', some (m.name, flat))
 
-def configureBuild (ev : EvalExpr) (st : Settings) (b : Bag) (builder : Name) (app : Module) (cli : Cli) :
-    Except GErr Outcome := do
-  if !(b.tree.isAllowed builder app.blocklist app.allowlist).ok then return .noBuild .blocked
-  if !(b.chain builder).contains app.contextName then return .noBuild .notAncestor
-  let app' := appClone app builder cli
-  match resolveTop b builder app cli with
-  | .error _ => return .noBuild .unresolved
-  | .ok rs =>
-  let r := resolvedOf b builder app' rs
-  let rules := b.collectRules builder
-  let opts := (b.ctx? builder).bind (·.varOptions)
-  let genv := globalEnv st b builder app r cli
-  let gflat ← match genv.flattenWithOptsOption opts with
-    | .ok f => pure f
-    | .error _ => throw (.error "global env: var_options")
-  let outfile ← unwrapX "generate.rs:outfile" (expandS gflat .empty "${outfile}")
-  let globals := (r.modules.filter (·.isGlobalBuildDep)).map (·.name)
-  let mut menvs : List (Module × Env × Option (List Name)) := []
-  for m in r.modules do
-    let (e, bd) ← buildEnv r m genv
-    menvs := menvs ++ [(m, e, bd)]
-  match buildOrder (menvs.map (fun (m, _, bd) => (m, bd))) with
-  | none => return .noBuild .depCycle
-  | some order =>
-  let mut ls : LoopState := {}
-  let mut mflats : List (Name × Flat) := []
-  for n in order do
+abbrev ModEnv := Module × Env × Option (List Name)   -- module, its env, its build-dep modules
+
+def ModEnv.deps (me : ModEnv) : Module × Option (List Name) := (me.1, me.2.2)
+
+/-- `build_env` of every selected module, in selection order -/
+def moduleEnvs (r : Resolved) (genv : Env) : List Module → Except GErr (List ModEnv)
+  | [] => .ok []
+  | m :: ms =>
+    match buildEnv r m genv with
+    | .error e => .error e
+    | .ok p =>
+      match moduleEnvs r genv ms with
+      | .error e => .error e
+      | .ok rest => .ok ((m, p.1, p.2) :: rest)
+
+def appendFlat (mflats : List (Name × Flat)) : Option (Name × Flat) → List (Name × Flat)
+  | some x => mflats ++ [x]
+  | none => mflats
+
+/-- the loop over the build order -/
+def modulesLoop (ev : EvalExpr) (st : Settings) (builder : Name) (app : Module) (r : Resolved)
+    (rules : List (String × Rule)) (opts : Option VarOpts) (globals : List Name) (menvs : List ModEnv) :
+    List Name → LoopState → List (Name × Flat) → Except GErr (LoopState × List (Name × Flat))
+  | [], ls, mflats => .ok (ls, mflats)
+  | n :: ns, ls, mflats =>
     match menvs.find? (·.1.name == n) with
-    | none => throw (.panic "generate.rs:modules.get(dep_name)")
-    | some (m, e, bd) =>
-      let (ls', mf) ← moduleStep ev st builder app r rules opts globals m e bd ls
-      ls := ls'
-      match mf with | some x => mflats := mflats ++ [x] | none => pure ()
-  -- global build dep files for the link step
-  let gfiles := dedup (globals.flatMap (fun g => (ls.files.get? g).getD []))
-  let gdeps : Option (List String) := if gfiles.isEmpty then none else some gfiles
-  let linkRule ← match rulesByName rules "LINK" with
-    | none => throw (.error "missing LINK rule")
-    | some lr => ruleToNinja ev lr gflat
-  let link := buildFromRule linkRule (some ls.objects) [outfile] gdeps
-  let mut entries := addEntries ls.entries [linkRule.render, link.render]
-  let mut out := outfile
+    | none => .error (.panic "generate.rs:modules.get(dep_name)")
+    | some me =>
+      match moduleStep ev st builder app r rules opts globals me.1 me.2.1 me.2.2 ls with
+      | .error e => .error e
+      | .ok lf => modulesLoop ev st builder app r rules opts globals menvs ns lf.1 (appendFlat mflats lf.2)
+
+/-! #### link, post-link, result -/
+
+def FileTable.getD (t : FileTable) (n : Name) : List String := (t.get? n).getD []
+
+def nonEmpty? (l : List String) : Option (List String) := if l.isEmpty then none else some l
+
+/-- the files of the global build deps, for the link step -/
+def globalDepFiles (globals : List Name) (files : FileTable) : Option (List String) :=
+  nonEmpty? (dedup (globals.flatMap files.getD))
+
+/-- the LINK rule and the link statement; result: the entries -/
+def linkStep (ev : EvalExpr) (rules : List (String × Rule)) (gflat : Flat) (globals : List Name)
+    (outfile : String) (ls : LoopState) : Except GErr (List String) :=
+  match rulesByName rules "LINK" with
+  | none => .error (.error "missing LINK rule")
+  | some lr =>
+    match ruleToNinja ev lr gflat with
+    | .error e => .error e
+    | .ok linkRule =>
+      .ok (addEntries ls.entries
+        [linkRule.render,
+         (buildFromRule linkRule (some ls.objects) [outfile] (globalDepFiles globals ls.files)).render])
+
+/-- the optional POST_LINK rule; result: (entries, final output file) -/
+def postLinkStep (ev : EvalExpr) (rules : List (String × Rule)) (gflat : Flat) (outfile : String)
+    (entries : List String) : Except GErr (List String × String) :=
   match rulesByName rules "POST_LINK" with
-  | none => pure ()
+  | none => .ok (entries, outfile)
   | some pr =>
     match pr.out with
-    | none => throw (.error "POST_LINK rule has no out")
+    | none => .error (.error "POST_LINK rule has no out")
     | some ext =>
-      let newOut := pathWithExtension outfile ext
-      let pl ← ruleToNinja ev pr gflat
-      let plb := buildFromRule pl (some [outfile]) [newOut] none
-      entries := addEntries entries [pl.render, plb.render]
-      out := newOut
-  let tflat := gflat.insert "out" out
-  let tasks ← collectTasks ev b builder tflat r
-  return .build { builder := builder, app := app.name, out := out, modules := r.modules.map (·.name),
-                  globalFlat := gflat, moduleFlat := mflats, tasks := tasks, entries := entries }
+      match ruleToNinja ev pr gflat with
+      | .error e => .error e
+      | .ok pl =>
+        .ok (addEntries entries
+              [pl.render, (buildFromRule pl (some [outfile]) [pathWithExtension outfile ext] none).render],
+             pathWithExtension outfile ext)
+
+def mkBuildInfo (builder : Name) (app : Module) (r : Resolved) (out : String) (gflat : Flat)
+    (mflats : List (Name × Flat)) (tasks : List (String × TaskAvail)) (entries : List String) : BuildInfo :=
+  { builder := builder, app := app.name, out := out, modules := r.modules.map (·.name),
+    globalFlat := gflat, moduleFlat := mflats, tasks := tasks, entries := entries }
+
+def builderVarOpts (b : Bag) (builder : Name) : Option VarOpts := (b.ctx? builder).bind (·.varOptions)
+
+def globalFlat (opts : Option VarOpts) (genv : Env) : Except GErr Flat :=
+  match genv.flattenWithOptsOption opts with
+  | .ok f => .ok f
+  | .error _ => .error (.error "global env: var_options")
+
+def globalBuildDeps (r : Resolved) : List Name := (r.modules.filter (·.isGlobalBuildDep)).map (·.name)
+
+/-- link, post-link and tasks, then the result -/
+def finishBuild (ev : EvalExpr) (b : Bag) (builder : Name) (app : Module) (r : Resolved)
+    (rules : List (String × Rule)) (gflat : Flat) (outfile : String) (globals : List Name)
+    (ls : LoopState) (mflats : List (Name × Flat)) : Except GErr BuildInfo :=
+  match linkStep ev rules gflat globals outfile ls with
+  | .error e => .error e
+  | .ok entries1 =>
+    match postLinkStep ev rules gflat outfile entries1 with
+    | .error e => .error e
+    | .ok eo =>
+      match collectTasks ev b builder (gflat.insert "out" eo.2) r with
+      | .error e => .error e
+      | .ok tasks => .ok (mkBuildInfo builder app r eo.2 gflat mflats tasks eo.1)
+
+/-- everything after the module envs are known: build order, module loop, link -/
+def configureOrdered (ev : EvalExpr) (st : Settings) (b : Bag) (builder : Name) (app : Module) (r : Resolved)
+    (rules : List (String × Rule)) (opts : Option VarOpts) (gflat : Flat) (outfile : String)
+    (menvs : List ModEnv) : Except GErr Outcome :=
+  match buildOrder (menvs.map ModEnv.deps) with
+  | none => .ok (.noBuild .depCycle)
+  | some order =>
+    match modulesLoop ev st builder app r rules opts (globalBuildDeps r) menvs order {} [] with
+    | .error e => .error e
+    | .ok lm =>
+      match finishBuild ev b builder app r rules gflat outfile (globalBuildDeps r) lm.1 lm.2 with
+      | .error e => .error e
+      | .ok i => .ok (.build i)
+
+/-- everything after the global env is flattened -/
+def configureWithEnv (ev : EvalExpr) (st : Settings) (b : Bag) (builder : Name) (app : Module) (r : Resolved)
+    (genv : Env) (gflat : Flat) : Except GErr Outcome :=
+  match unwrapX "generate.rs:outfile" (expandS gflat .empty "${outfile}") with
+  | .error e => .error e
+  | .ok outfile =>
+    match moduleEnvs r genv r.modules with
+    | .error e => .error e
+    | .ok menvs =>
+      configureOrdered ev st b builder app r (b.collectRules builder) (builderVarOpts b builder) gflat outfile menvs
+
+/-- for a given selection -/
+def configureSelection (ev : EvalExpr) (st : Settings) (b : Bag) (builder : Name) (app : Module) (cli : Cli)
+    (r : Resolved) : Except GErr Outcome :=
+  match globalFlat (builderVarOpts b builder) (globalEnv st b builder app r cli) with
+  | .error e => .error e
+  | .ok gflat => configureWithEnv ev st b builder app r (globalEnv st b builder app r cli) gflat
+
+/-- everything after successful resolution -/
+def configureResolved (ev : EvalExpr) (st : Settings) (b : Bag) (builder : Name) (app : Module) (cli : Cli)
+    (rs : RState) : Except GErr Outcome :=
+  configureSelection ev st b builder app cli (resolvedOf b builder (appClone app builder cli) rs)
+
+def configureBuild (ev : EvalExpr) (st : Settings) (b : Bag) (builder : Name) (app : Module) (cli : Cli) :
+    Except GErr Outcome :=
+  if !(b.tree.isAllowed builder app.blocklist app.allowlist).ok then .ok (.noBuild .blocked)
+  else if !(b.chain builder).contains app.contextName then .ok (.noBuild .notAncestor)
+  else
+    match resolveTop b builder app cli with
+    | .error _ => .ok (.noBuild .unresolved)
+    | .ok rs => configureResolved ev st b builder app cli rs
 
 end Laze
